@@ -107,19 +107,19 @@ Print Assumptions C05_type_class_table.
    and its link to validate on a one-column schema. *)
 Theorem C05_decision_table :
   accepted_pairs =
-  [("ARRAY", "builtins.list");
-   ("BLOB", "builtins.bytes"); ("BLOB", "numpy.bytes_");
+  [("ARRAY", "builtins.list"); ("ARRAY", "props.C05._MyList");
+   ("BLOB", "builtins.bytes"); ("BLOB", "numpy.bytes_"); ("BLOB", "props.C05._MyBytes");
    ("BOOLEAN", "builtins.bool");
-   ("DATE", "datetime.date"); ("DATE", "datetime.datetime");
+   ("DATE", "datetime.date"); ("DATE", "datetime.datetime"); ("DATE", "props.C05._MyDate");
    ("DECIMAL", "decimal.Decimal");
-   ("DOUBLE", "builtins.float"); ("DOUBLE", "numpy.float64");
-   ("INTEGER", "builtins.bool"); ("INTEGER", "builtins.int");
+   ("DOUBLE", "builtins.float"); ("DOUBLE", "numpy.float64"); ("DOUBLE", "props.C05._MyFloat");
+   ("INTEGER", "builtins.bool"); ("INTEGER", "builtins.int"); ("INTEGER", "props.C05._MyInt"); ("INTEGER", "props.C05._Colour");
    ("INTERVAL", "datetime.timedelta");
    ("STRUCT", "builtins.dict"); ("STRUCT", "collections.OrderedDict");
    ("TIMESTAMP", "datetime.datetime");
    ("TIME", "datetime.time");
-   ("VARCHAR", "builtins.str"); ("VARCHAR", "numpy.str_");
-   ("JSONB", "builtins.bytes"); ("JSONB", "numpy.bytes_")]%string
+   ("VARCHAR", "builtins.str"); ("VARCHAR", "numpy.str_"); ("VARCHAR", "props.C05._MyStr");
+   ("JSONB", "builtins.bytes"); ("JSONB", "numpy.bytes_"); ("JSONB", "props.C05._MyBytes")]%string
   /\
   (forall n t nl cls i p,
      validate [mkcol n (Some t) nl] [(n, VObj cls i p)] = VOk <-> accepts t cls = true).
@@ -292,6 +292,44 @@ Example C05_nonvacuous_session :
    SOAppend (ARaise (AErrors [] [] [(1%N, pv 2%N, 11%N)])) (mkfr (FSchema [a; b]) [] true true);
    SOAppend AOk (mkfr (FSchema [a; b]) [[pv 2%N; pv 5%N]] true false)].
 Proof. vm_compute. reflexivity. Qed.
+
+(* ---------------------------------------------------------------------------------------------- *)
+(* round 4: columns carrying a default, aliases and descriptive attributes                        *)
+
+(* Whatever else the columns carry, validation is a function of their cores (name, type, nullable): two
+   schemas with the same cores decide every record alike, and an in-place change of those other attributes
+   changes nothing.  (By construction of the model - the correspondence is what checks the code against it.) *)
+Theorem C05_only_name_type_nullable_matter :
+  (forall (fs fs' : list fcolumn) (e : entry),
+     map fcore fs = map fcore fs' -> validate_entry (map fcore fs) e = validate_entry (map fcore fs') e) /\
+  (forall (s : schema) i d al ot, apply_mut (MSetAttrs i d al ot) s = s).
+Proof. split; [intros fs fs' e H; rewrite H; reflexivity | reflexivity]. Qed.
+Print Assumptions C05_only_name_type_nullable_matter.
+
+(* A null in a non-nullable column never validates and (when no other exception pre-empts the error) is named
+   under "not nullable" - for every column carrying any default, aliases or descriptive attributes. *)
+Theorem C05_null_in_non_nullable_always_named :
+  forall (fs : list fcolumn) (r : record) (fc : fcolumn),
+  In fc fs -> lookup (cname (fcore fc)) r = Some VNone -> cnullable (fcore fc) = false ->
+  validate (map fcore fs) r <> VOk /\
+  (extra_keys (map fcore fs) r = [] -> first_raise r (map fcore fs) = None ->
+   validate (map fcore fs) r =
+     VErrors (missing_cols (map fcore fs) r) (notnull_cols (map fcore fs) r) (wrong_cols (map fcore fs) r) /\
+   In (cname (fcore fc)) (notnull_cols (map fcore fs) r)).
+Proof.
+  intros fs r fc Hin Hl Hn. split.
+  - apply (null_in_non_nullable_never_ok _ r (fcore fc)); [apply in_map; exact Hin | exact Hl | exact Hn].
+  - intros He Hf. apply null_in_non_nullable_named; try assumption. apply in_map. exact Hin.
+Qed.
+Print Assumptions C05_null_in_non_nullable_always_named.
+
+(* non-vacuity: a non-nullable VARCHAR column declaring the default pv 5 and an alias; a null is rejected and named *)
+Example C05_nonvacuous_default :
+  let fc := mkfcol (mkcol 1%N (Some 11%N) false) (Some (pv 5%N)) [8%N] [0%N; 4%N] in
+  validate (map fcore [fc]) [(1%N, VNone)] = VErrors [] [1%N] [] /\
+  validate (map fcore [fc]) [(1%N, pv 5%N)] = VOk /\
+  validate (map fcore [fc]) [(8%N, pv 5%N)] = VExcess [8%N].
+Proof. cbv zeta. repeat split; vm_compute; reflexivity. Qed.
 
 (* ---------------------------------------------------------------------------------------------- *)
 (* non-vacuity                                                                                    *)
